@@ -92,6 +92,7 @@ class History(object):
                 perm = list(roots)
                 self.rng.shuffle(perm)
                 d["children"] = perm[:k]
+                d["two_step"] = bool(self.rng.random() < 0.4)
             d["hop"] = bool(self.rng.random() < self.dict_hop_prob)
         elif kind == "dp_move":
             out_name = t.outlier_node_name
@@ -146,6 +147,12 @@ class History(object):
             new = Tree.from_dict(t.to_dict()) if d.get("hop") else t.copy()
             if d["where"] == "existing":
                 new.add_data_point_to_node(dp, d["node"])
+            elif d["where"] == "new" and d.get("two_step"):
+                # the two-step creation the bootstrap proposal and the conditional sampler's retained path use: an empty
+                # clone first, its data point afterwards; the state in between is a tree like any other
+                node = new.create_root_node(children=list(d["children"]))
+                inter.append(("clone created without data (first half of the two-step creation)", new.copy()))
+                new.add_data_point_to_node(dp, node)
             elif d["where"] == "new":
                 new.create_root_node(children=list(d["children"]), data=[dp])
             else:
